@@ -625,7 +625,7 @@ func init() {
 	engine.Register(engine.Spec[Case]{
 		ID:    "C10",
 		Level: "exploration",
-		Rule: "seq: test files assembled from an alphabet of items with constructed verdicts (every assert.* function holding / failing / failing with a custom message, state assertions after testing.call_subroutine, 9 runtime-error shapes, assertion sequences, assertions under if / else-if / switch / block / return, @skip, @suite, multiple @scope, scope by name suffix; writers of every piece of tester-visible state: tables, injected variables, mocks, fixed time, override host, backend health, headers, rate counters, penalty boxes, regex groups, backend, logs, error/restart/state/called records, locals, per-scope objects; readers that log and assert what they see; describe groups) — every item alone, every ordered pair, every ordered triple of the interaction alphabet, and the whole alphabet forwards and backwards, x 4 main VCLs x coverage off/on, run in-process with the options of `falco test`; flow: generated mains = 15 container shapes (if, if-else, else-if chains incl. elsif/elseif, switch with fallthrough/default/regex case, bare block, nested ifs, regex-condition chain, functional subroutine, repeated ifs) x arms filled from 34 leaf statements with at most k arms deviating from the default (k = 1 quick, 2 thorough) x every input vector over the conditions the program reads, each run with and without coverage; cli: the real binary in text and -json mode x coverage on selections of items. non-trivial = at least one test in the file; distinct = distinct (main, file, coverage)",
+		Rule: "seq: test files assembled from an alphabet of items with constructed verdicts (every assert.* function holding / failing / failing with a custom message, state assertions after testing.call_subroutine, 9 runtime-error shapes, assertion sequences, assertions under if / else-if / switch / block / return, @skip, @suite, multiple @scope, scope by name suffix; writers of every piece of tester-visible state: tables, injected variables, mocks, fixed time, override host, backend health, headers, rate counters, penalty boxes, regex groups, backend, logs, error/restart/state/called records, locals, per-scope objects; readers that log and assert what they see; describe groups) — every item alone, every ordered pair, every ordered triple of the interaction alphabet, and the whole alphabet forwards and backwards, x 4 main VCLs x coverage off/on, run in-process with the options of `falco test`; flow: generated mains = 15 container shapes (if, if-else, else-if chains incl. elsif/elseif, switch with fallthrough/default/regex case, bare block, nested ifs, regex-condition chain, functional subroutine, repeated ifs) x arms filled from 38 leaf statements with at most k arms deviating from the default (k = 1 quick, 2 thorough) x every input vector over the conditions the program reads, each run with and without coverage; cli: the real binary in text and -json mode x coverage on selections of items. non-trivial = at least one test in the file; distinct = distinct (main, file, coverage)",
 		Gen:  gen10,
 		Key: func(c Case) string {
 			return c.Kind + "\x00" + c.Main + "\x00" + strings.Join(c.Items, ",") + "\x00" + fmt.Sprint(c.Cov, c.JSON) + "\x00" + c.Cont + fmt.Sprint(c.Arms) + "\x00" + strings.Join(c.Sets, ";")
